@@ -162,6 +162,69 @@ int main() {
 }
 '''
 
+# behavioural probe of whole machines (public interface only): a submachine whose initial state's entry behaviour
+# throws while it is entered under active_state_switch_before_transition; is the submachine usable afterwards?
+PROBE2 = r'''#include <cstdio>
+#include <stdexcept>
+#include <boost/mpl/vector.hpp>
+#include <boost/msm/back/state_machine.hpp>
+#include <boost/msm/back11/state_machine.hpp>
+#include <boost/msm/backmp11/state_machine.hpp>
+#include <boost/msm/front/state_machine_def.hpp>
+#include <boost/msm/front/functor_row.hpp>
+#include <boost/msm/active_state_switching_policies.hpp>
+namespace msm = boost::msm; namespace mpl = boost::mpl;
+using msm::front::Row; using msm::front::none;
+namespace P {
+struct go {}; struct other {};
+struct SubDef : msm::front::state_machine_def<SubDef> {
+  struct S1 : msm::front::state<> { template <class E, class F> void on_entry(E const&, F&) { throw std::runtime_error("entry"); } };
+  struct S2 : msm::front::state<> {};
+  typedef S1 initial_state;
+  struct transition_table : mpl::vector<Row<S1, other, S2>> {};
+  template <class F, class E> void no_transition(E const&, F&, int) {}
+  template <class F, class E> void exception_caught(E const&, F&, std::exception&) {}
+};
+template <class Sub> struct RootDef : msm::front::state_machine_def<RootDef<Sub>> {
+  struct A : msm::front::state<> {};
+  typedef A initial_state;
+  typedef msm::active_state_switch_before_transition active_state_switch_policy;
+  struct transition_table : mpl::vector<Row<A, go, Sub>> {};
+  template <class F, class E> void no_transition(E const&, F&, int) {}
+  template <class F, class E> void exception_caught(E const&, F&, std::exception&) {}
+};
+template <class Sub, class Root> int run() {
+  Root r; r.start(); r.process_event(go()); r.process_event(other());
+  return (int)(r.template get_state<Sub&>().current_state()[0] == 1);
+}
+}
+namespace Q {
+struct go {};
+static int in_entry = 0, reentrant = 0;
+struct Def : msm::front::state_machine_def<Def> {
+  struct A : msm::front::state<> { template <class E, class F> void on_entry(E const&, F& f) { in_entry = 1; f.process_event(go()); in_entry = 0; } };
+  struct B : msm::front::state<> {};
+  struct Act { template <class E, class F, class S, class T> void operator()(E const&, F&, S&, T&) { if (in_entry) reentrant = 1; } };
+  typedef A initial_state;
+  struct transition_table : mpl::vector<Row<A, go, B, Act>> {};
+  template <class F, class E> void no_transition(E const&, F&, int) {}
+};
+template <class SM> int run() { in_entry = 0; reentrant = 0; SM m; m.start(); return !reentrant; }
+}
+int main() {
+  std::printf("back_start_queues %d\n", Q::run<msm::back::state_machine<Q::Def>>());
+  std::printf("back11_start_queues %d\n", Q::run<msm::back11::state_machine<Q::Def>>());
+  std::printf("mp11_start_queues %d\n", Q::run<msm::backmp11::state_machine<Q::Def>>());
+  { typedef msm::back::state_machine<P::SubDef> Sub; typedef msm::back::state_machine<P::RootDef<Sub>> Root;
+    std::printf("back_entry_throw_resets %d\n", P::run<Sub, Root>()); }
+  { typedef msm::back11::state_machine<P::SubDef> Sub; typedef msm::back11::state_machine<P::RootDef<Sub>> Root;
+    std::printf("back11_entry_throw_resets %d\n", P::run<Sub, Root>()); }
+  { typedef msm::backmp11::state_machine<P::SubDef> Sub; typedef msm::backmp11::state_machine<P::RootDef<Sub>> Root;
+    Root r; r.start(); r.process_event(P::go()); r.process_event(P::other());
+    std::printf("mp11_entry_throw_resets %d\n", (int)(r.get_state<Sub>().get_active_state_ids()[0] == 1)); }
+}
+'''
+
 def member_type(text, member_re, what):
     m = re.search(member_re, text)
     if not m:
@@ -211,7 +274,7 @@ def probe_values(cache_dir=None):
     src = src.replace("SEQ_BACK_T", seq_back).replace("SEQ_MP11_T", seq_mp11)
     key = hashlib.sha256(src.encode()).hexdigest()[:16]
     # the probe depends on every header, so the cache key includes them
-    h = hashlib.sha256(src.encode())
+    h = hashlib.sha256((src + PROBE2).encode())
     root = os.path.join(INC, "boost", "msm")
     for d, _, fs in sorted(os.walk(root)):
         for f in sorted(fs):
@@ -226,11 +289,19 @@ def probe_values(cache_dir=None):
     try:
         cpp = os.path.join(tmpd, "probe.cpp")
         open(cpp, "w").write(src)
+        cpp2 = os.path.join(tmpd, "probe2.cpp")
+        open(cpp2, "w").write(PROBE2)
+        p2 = subprocess.Popen(["g++", "-std=gnu++20", "-O0", "-w", "-I", INC, cpp2, "-o", os.path.join(tmpd, "probe2")],
+                              stdout=subprocess.PIPE, stderr=subprocess.PIPE, text=True)
         r = subprocess.run(["g++", "-std=gnu++20", "-O0", "-w", "-I", INC, cpp, "-o", os.path.join(tmpd, "probe")],
                            capture_output=True, text=True)
+        _, err2 = p2.communicate()
         if r.returncode != 0:
             raise RegenError("probe does not compile:\n" + r.stderr[-3000:])
+        if p2.returncode != 0:
+            raise RegenError("machine probe does not compile:\n" + err2[-3000:])
         out = subprocess.run([os.path.join(tmpd, "probe")], capture_output=True, text=True, timeout=30).stdout
+        out += subprocess.run([os.path.join(tmpd, "probe2")], capture_output=True, text=True, timeout=30).stdout
         open(out_file, "w").write(out)
         return out, conds
     finally:
@@ -295,6 +366,15 @@ def render(out, conds):
     w("Definition back_seq_signed := %s." % ("true" if need("back_seq_signed", 1)[0] else "false"))
     w("Definition mp11_seq_bits := %d." % need("mp11_seq_bits", 1)[0])
     w("Definition mp11_seq_signed := %s." % ("true" if need("mp11_seq_signed", 1)[0] else "false"))
+    w("")
+    w("(* whole-machine probe: a submachine is entered and its initial state's entry behaviour throws; true = the")
+    w("   submachine's processing marker is cleared (the next event given to it is dispatched, not stored) *)")
+    for k in ("back_entry_throw_resets", "back11_entry_throw_resets", "mp11_entry_throw_resets"):
+        w("Definition %s := %s." % (k, "true" if need(k, 1)[0] else "false"))
+    w("(* whole-machine probe: an initial state's entry behaviour calls fsm.process_event during start(); true = the event is")
+    w("   stored and dispatched after the entry behaviours, false = it is dispatched re-entrantly inside the entry behaviour *)")
+    for k in ("back_start_queues", "back11_start_queues", "mp11_start_queues"):
+        w("Definition %s := %s." % (k, "true" if need(k, 1)[0] else "false"))
     # consistency of the probe itself: the 2-row chain of backmp11 must be explained by stop/mask
     orv, stop, mask = need("mp11_chain_or", 64), need("mp11_chain_stop", 8), need("mp11_chain_mask", 8)
     for a in range(8):
